@@ -304,6 +304,8 @@ def build(dadi, c):
     return S.fold() if c['folded'] else S
 
 def small(c):
+    if c.get('recipe') is not None:            # large spectra: the replay stores the recipe (sizes, targets, seed of the data), not 2e5 numbers
+        return dict(c['recipe'], kind='large', axis=c.get('axis'))
     return dict(kind=c['kind'], d=c['d'], shape=list(c['shape']), ns=list(c['ns']), folded=bool(c['folded']),
                 mask_corners=bool(c['mask_corners']), mask_kind=c.get('mask_kind'), data_kind=c.get('data_kind'), data=np.asarray(c['data'], dtype=float),
                 mask=np.asarray(c['mask'], dtype=int), axis=c.get('axis'))
@@ -425,7 +427,7 @@ def check_project_case(chk, ctx, c, do_model=True):
     for k in c.get('ns_kinds', []): chk.stat('ns:%s' % k)
     chk.sample(dict(op='project', shape=c['shape'], ns=ns, folded=c['folded'], mask=c.get('mask_kind'), masked_in=int(src_mask.sum()), masked_out=int(pmask.sum())))
 
-def check_one_axis_case(chk, ctx, c):
+def check_one_axis_case(chk, ctx, c, do_model=True):
     """`_project_one_axis(m, axis)` directly (unfolded spectra; the method ignores folding)"""
     dadi = ctx['dadi']
     ax = int(c['axis']); m = int(c['ns'][ax])
@@ -443,7 +445,7 @@ def check_one_axis_case(chk, ctx, c):
     scale = float(np.max(np.abs(rd)))
     if pdata.shape != rd.shape or not np.array_equal(pmask, rm) or (not rm.all() and float(np.max(np.abs(pdata - rd)[~rm])) > RTOL * scale):
         chk.fail('_project_one_axis:value', '_project_one_axis(%d, axis=%d) differs from the hypergeometric projection of that axis' % (m, ax), inp)
-    if have_driver(ctx):
+    if do_model and have_driver(ctx):
         out = ctx['driver'].ask('project1 %d %d 0 %s %s' % (ax, m, fmt_nd(src_data), fmt_nd(src_mask.astype(int))))
         if not out.startswith('ok '):
             chk.k_bad('project_one_axis', inp, 'result', out, None)
@@ -717,7 +719,7 @@ def _lowpass(chk):
     except Exception as e:
         chk.notes.append('LowPass not importable: %r' % (e,)); return None
 
-def check_lowpass_f0(chk, ctx, LP, n, m, history, rng=None):
+def check_lowpass_f0(chk, ctx, LP, n, m, history, rng=None, do_model=True):
     """one F = 0 call of LowPass.projection_matrix in a given call history: entrywise hypergeometric (L3, exact comb weights),
     equal to the model's rows (K), consistent with Spectrum.project on a random spectrum and on unit spectra"""
     dadi = ctx['dadi']
@@ -741,7 +743,7 @@ def check_lowpass_f0(chk, ctx, LP, n, m, history, rng=None):
                 chk.fail('LowPass.projection_matrix:vs-project', 'x·projection_matrix(%d,%d,0) differs from Spectrum(x).project([%d])' % (n, m, m), dict(inp, x=x))
         except Exception as e:
             chk.fail('project:raises:%s' % type(e).__name__, 'Spectrum.project raises %r' % (e,), dict(inp, x=x))
-    if have_driver(ctx):
+    if do_model and have_driver(ctx):
         out = ctx['driver'].ask('projmat %d %d' % (m, n))
         if out.startswith('ok '):
             model = np.array([parse_floats(r) for r in out[3:].split(';')])
@@ -976,9 +978,13 @@ def datadict_sequence(chk, ctx, spec):
                     break
     chk.stat('datadict:%dpop' % len(pops))
 
-def gen_dd_spec(rng, npop):
+def gen_dd_spec(rng, npop, big=False):
     pops = ['P%d' % k for k in range(npop)]
-    sizes = [int(rng.integers(2, 25 if npop == 1 else 11)) for _ in pops]
+    if big:                                     # sample sizes at the upper end of the property's range (spectra of 1e4..2e5 entries)
+        lo, hi = {1: (120, 201), 2: (80, 151), 3: (40, 56)}[npop]
+        sizes = [int(rng.integers(lo, hi)) for _ in pops]
+    else:
+        sizes = [int(rng.integers(2, 25 if npop == 1 else 11)) for _ in pops]
     proj = [int(rng.integers(1, n + 1)) for n in sizes]
     snps = []
     for _ in range(int(rng.integers(2, 9))):
@@ -995,10 +1001,12 @@ def gen_dd_spec(rng, npop):
         snps[0][1] = 0; snps[0][2] = 5
     return dict(pops=pops, projections=proj, snps=snps, cold=bool(rng.random() < 0.5))
 
-def l3_data_dict_history(chk, ctx, rng, count):
+def l3_data_dict_history(chk, ctx, rng, count, big=False):
     for it in range(count):
-        spec = gen_dd_spec(rng, 1 if it % 3 != 2 else 2 + (it // 3) % 2)
+        spec = gen_dd_spec(rng, (1 + it % 3) if big else (1 if it % 3 != 2 else 2 + (it // 3) % 2), big=big)
         datadict_sequence(chk, ctx, spec)
+        if big:
+            chk.stat('datadict:large')
 
 # --------------------------------------------------------------------------- LowPass with inbreeding: subsampling individuals
 def inbreeding_exact(partition, k):
@@ -1104,6 +1112,223 @@ def l3_inbreeding(chk, ctx, rng, count):
         F = [0.25, 0.6, 0.9, 0.05, 0.5][it % 5]          # 0 < F < 1 (F = 1 makes odd allele counts impossible: 0/0 in the code, not C08's business)
         check_lowpass_F(chk, ctx, LP, n, m, F)
 
+# --------------------------------------------------------------------------- large spectra: size-dependent code paths
+# The property quantifies over 1 <= m <= n <= 200 per axis and 1..4 dimensions.  Everything above uses spectra of at most a few
+# thousand entries (K through the exact-rational model cannot afford more), so a branch of `project` / `_project_one_axis` /
+# `fold` / `unfold` / `from_data_dict` that is selected by the array size, the number of chromosomes or the amount of shrinkage would
+# never run.  Every run therefore includes a deterministic set of LARGE cases (3-D with ~50 chromosomes per axis, 4-D with ~20,
+# very unequal axes, 1-D / 2-D with n up to 200; 7e4 .. 2.6e5 entries in the quick tier, up to ~1e6 thorough) with target profiles in
+# which later axes shrink more than earlier ones (and the other way round, the middle axis most, one axis only, all by one, down to
+# 1..3), pairwise different targets, folded and unfolded, with and without masked entries.  Reference: per-axis exact hypergeometric
+# matrices applied with tensordot + reachability masks (`ref_project`), which costs milliseconds at that size.  L3 only.
+LARGE_FAMILIES = {
+    # family: (dimension, per-axis (lo, hi) of n in the quick tier, the same in the thorough tier)
+    '1d':        (1, [(150, 200)], [(150, 200)]),
+    '2d':        (2, [(120, 200), (120, 200)], [(160, 200), (160, 200)]),
+    '3d':        (3, [(44, 60)] * 3, [(44, 100)] * 3),
+    '4d':        (4, [(17, 22)] * 4, [(17, 31)] * 4),
+    '3d-uneven': (3, [(150, 200), (20, 30), (12, 20)], [(150, 200), (30, 60), (20, 60)]),
+    '4d-uneven': (4, [(60, 80), (12, 16), (8, 10), (6, 8)], [(100, 200), (12, 20), (8, 14), (6, 10)]),
+}
+LARGE_PROFILES = ['later-more', 'middle-most', 'random', 'earlier-more', 'last-only', 'one-step', 'to-small']
+LARGE_PLAN = {'quick': [('3d', 6), ('4d', 5), ('3d-uneven', 4), ('4d-uneven', 3), ('2d', 3), ('1d', 2)],
+              'thorough': [('3d', 14), ('4d', 10), ('3d-uneven', 8), ('4d-uneven', 8), ('2d', 6), ('1d', 4)]}
+
+def large_recipe(rng, tier, family, profile, folded, mask_kind, data_kind):
+    d, q, t = LARGE_FAMILIES[family]
+    ranges = list(q if tier == 'quick' else t)
+    if family.endswith('uneven'):
+        ranges = [ranges[int(k)] for k in rng.permutation(d)]              # the long axis is not always the first one
+    sizes = [int(rng.integers(lo, hi + 1)) for lo, hi in ranges]
+    while tier == 'thorough' and np.prod([n + 1.0 for n in sizes]) > 1.1e6:  # keep the thorough tier affordable
+        k = int(np.argmax(sizes)); sizes[k] = max(ranges[k][0], sizes[k] * 3 // 4)
+    # shrinkage per axis: distinct fractions, assigned to the axes according to the profile
+    fr = sorted(float(f) for f in rng.uniform(0.08, 0.85, size=d))
+    for k in range(1, d):
+        fr[k] = max(fr[k], fr[k - 1] + 0.06)
+    if profile == 'later-more' or (profile == 'middle-most' and d < 3):
+        order = list(range(d))
+    elif profile == 'earlier-more':
+        order = list(range(d))[::-1]
+    elif profile == 'middle-most':
+        mid = 1 if d == 3 else int(rng.integers(1, d - 1))
+        rest = [int(k) for k in rng.permutation([k for k in range(d) if k != mid])]
+        order = rest + [mid]
+    else:
+        order = [int(k) for k in rng.permutation(d)]
+    shrink = [0] * d
+    for rank, ax in enumerate(order):                                        # order[rank] = the axis that gets the rank-th smallest shrinkage
+        shrink[ax] = max(1, int(round(fr[rank] * sizes[ax])))
+    if profile in ('later-more', 'earlier-more', 'middle-most'):
+        # the profile is about the number of chromosomes removed: make it strictly monotone along `order`
+        for rank in range(1, d):
+            a, b = order[rank - 1], order[rank]
+            shrink[b] = min(sizes[b] - 1, max(shrink[b], shrink[a] + 1))
+    ns = [max(1, n - sh) for n, sh in zip(sizes, shrink)]
+    if profile == 'last-only':
+        ns = list(sizes); ns[-1] = max(1, sizes[-1] - max(2, shrink[-1]))
+    elif profile == 'one-step':
+        ns = [max(1, n - 1) for n in sizes]
+    elif profile == 'to-small':
+        ns = [1 + int(k) for k in rng.permutation(max(d, 3))[:d]]
+    if profile not in ('last-only', 'one-step'):
+        for k in range(d):                                                   # pairwise different targets where the sizes allow
+            tries = 0
+            while ns[k] in ns[:k] and tries < 6:
+                ns[k] = ns[k] - 1 if ns[k] > 1 else min(sizes[k], ns[k] + 2); tries += 1
+    mid = [int(rng.integers(m, n + 1)) for m, n in zip(ns, sizes)]
+    perm = [int(k) for k in rng.permutation(d)]
+    if d >= 2 and perm == list(range(d)):
+        perm = perm[1:] + perm[:1]
+    up_axis = int(rng.integers(d))
+    return dict(family=family, d=d, shape=[n + 1 for n in sizes], ns=ns, profile=profile, folded=bool(folded), mask_kind=mask_kind,
+                data_kind=data_kind, data_seed=int(rng.integers(1, 2 ** 31 - 1)), mid=mid, perm=perm,
+                order=[int(k) for k in rng.permutation(d)], up_axis=up_axis, up_by=int(rng.integers(1, 4)))
+
+def large_build(recipe):
+    """the case (data, mask) a recipe stands for — a pure function of the recipe, so that a replay file stays small"""
+    r = np.random.default_rng(int(recipe['data_seed']))
+    shape = [int(x) for x in recipe['shape']]; d = len(shape)
+    if recipe['data_kind'] == 'counts':
+        data = r.poisson(0.4, shape).astype(float) * r.integers(1, 4, shape)
+    else:
+        data = gen.coarse(r.uniform(0, 1, shape) ** 2 * 100, 20)
+    zero_slices = []
+    if recipe['data_kind'] == 'zero-slices':       # whole slices of exact zeros along every axis, symmetric under reversal (they survive fold/unfold)
+        for ax in range(d):
+            n = shape[ax] - 1
+            ks = set(int(k) for k in r.integers(0, n + 1, size=int(r.integers(1, 4))))
+            ks |= set(n - k for k in ks)
+            for k in sorted(ks):
+                sl = [slice(None)] * d; sl[ax] = k; data[tuple(sl)] = 0.0
+                zero_slices.append((ax, k))
+    mask = np.zeros(shape, dtype=bool)
+    mk = recipe['mask_kind']
+    if mk == 'zero-slice' and zero_slices:         # masked entries inside all-zero slices: they must mask their targets all the same
+        for _ in range(3):
+            ax, k = zero_slices[int(r.integers(len(zero_slices)))]
+            idx = [int(r.integers(x)) for x in shape]; idx[ax] = k
+            mask[tuple(idx)] = True
+    elif mk in ('single', 'zero-slice'):
+        mask[tuple(int(r.integers(1, max(2, x - 1))) for x in shape)] = True
+    elif mk == 'sparse':
+        for _ in range(6):
+            mask[tuple(int(r.integers(x)) for x in shape)] = True
+    elif mk == 'line':
+        ax = int(r.integers(d)); sl = [int(r.integers(x)) for x in shape]; sl[ax] = slice(None)
+        mask[tuple(sl)] = True
+    return dict(kind='project', d=d, shape=shape, ns=[int(m) for m in recipe['ns']], ns_kinds=[recipe['profile']], data=data, mask=mask,
+                mask_corners=(mk == 'corners'), mask_kind=mk, data_kind=recipe['data_kind'], folded=bool(recipe['folded']),
+                recipe={k: v for k, v in recipe.items() if k not in ('kind', 'axis', 'what')}, cold=False)
+
+def check_large_meta(chk, ctx, c):
+    """clauses of the property that need no reference at all, on a large spectrum: two stages = one, the axes one at a time in a
+    random order = all at once, transposing the axes (and the targets along) commutes with projecting, an upward target on one axis is
+    refused, projecting to the same sizes is the identity."""
+    dadi = ctx['dadi']; R = c['recipe']
+    inp = dict(small(c), what='meta')
+    fs = build(dadi, c)
+    sizes = [x - 1 for x in c['shape']]; ns = list(c['ns']); d = c['d']
+    key = ('large-meta', R['family'], R['profile'], c['folded'])
+    try:
+        once = fs.project(ns)
+    except Exception as e:
+        chk.l3(key)
+        chk.fail('project:raises:%s' % type(e).__name__, 'Spectrum.project(%r) on sample sizes %r (%d entries) raises %r' % (ns, sizes, int(np.prod(c['shape'])), e), inp)
+        return
+    chk.l3(key)
+    if tuple(once.shape) != tuple(m + 1 for m in ns):
+        chk.fail('project:shape', 'Spectrum.project(%r) on sample sizes %r (%d entries) returned sample sizes %r'
+                 % (ns, sizes, int(np.prod(c['shape'])), [x - 1 for x in once.shape]), inp)
+        return
+    # two stages
+    try:
+        twice = fs.project(R['mid']).project(ns)
+        ok, what = spec_close(twice, once, what_mask=not c['folded'])
+        chk.l3(('large-compose', R['family'], c['folded']))
+        if not ok:
+            chk.fail('project:compose', 'projecting %r -> %r -> %r differs from %r -> %r: %s' % (sizes, R['mid'], ns, sizes, ns, what), inp)
+    except Exception as e:
+        chk.fail('project:compose:raises:%s' % type(e).__name__, 'two-stage projection %r -> %r -> %r raises %r' % (sizes, R['mid'], ns, e), inp)
+    # one axis at a time, in the recipe's order
+    if d >= 2:
+        try:
+            cur = fs; cur_ns = list(sizes)
+            for k in R['order']:
+                cur_ns[k] = ns[k]
+                cur = cur.project(list(cur_ns))
+            ok, what = spec_close(cur, once, what_mask=not c['folded'])
+            chk.l3(('large-order', R['family'], tuple(R['order']), c['folded']))
+            if not ok:
+                chk.fail('project:axis-order', 'projecting the axes of %r one at a time in the order %r differs from projecting to %r at once: %s'
+                         % (sizes, R['order'], ns, what), inp)
+        except Exception as e:
+            chk.fail('project:order:raises:%s' % type(e).__name__, 'axis-by-axis projection raises %r' % (e,), inp)
+        # relabelling the populations: transpose source and targets, project, compare with the transposed projection
+        perm = list(R['perm'])
+        try:
+            T = dadi.Spectrum(np.transpose(np.asarray(fs.data, dtype=float), perm), mask=np.transpose(np.array(np.ma.getmaskarray(fs)), perm),
+                              mask_corners=False, data_folded=bool(fs.folded))
+            PT = T.project([ns[k] for k in perm])
+            want = dadi.Spectrum(np.transpose(np.asarray(once.data, dtype=float), perm), mask=np.transpose(np.array(np.ma.getmaskarray(once)), perm),
+                                 mask_corners=False, data_folded=bool(once.folded))
+            ok, what = spec_close(PT, want)
+            chk.l3(('large-transpose', R['family'], tuple(perm), c['folded']))
+            if not ok:
+                chk.fail('project:axis-relabel', 'transposing the axes %r of a spectrum with sample sizes %r and projecting to the transposed targets differs '
+                         'from transposing the projection to %r: %s' % (perm, sizes, ns, what), inp)
+        except Exception as e:
+            chk.fail('project:relabel:raises:%s' % type(e).__name__, 'projection of the transposed spectrum raises %r' % (e,), inp)
+    # refusals and the identity
+    up = list(ns); up[R['up_axis']] = sizes[R['up_axis']] + int(R['up_by'])
+    chk.l3(('large-refusal', R['family'], c['folded']))
+    try:
+        res = fs.project(up)
+        chk.fail('project:up-accepted', 'Spectrum.project(%r) on sample sizes %r returned a spectrum of shape %r instead of refusing' % (up, sizes, res.shape), inp)
+    except ValueError:
+        pass
+    except Exception as e:
+        chk.fail('project:up-wrong-exception:%s' % type(e).__name__, 'Spectrum.project(%r) on sample sizes %r raised %r, documented refusal is ValueError' % (up, sizes, e), inp)
+    try:
+        same = fs.project(list(sizes))
+        ok, what = spec_close(same, fs)
+        if not ok or bool(same.folded) != bool(fs.folded):
+            chk.fail('project:identity', 'projecting to the same sample sizes %r changes the spectrum: %s' % (sizes, what), inp)
+    except Exception as e:
+        chk.fail('project:equal-refused', 'projecting to the same sizes %r raised %r' % (sizes, e), inp)
+
+def l3_large(chk, ctx, rng):
+    tier = ctx['tier']
+    off = int(rng.integers(len(LARGE_PROFILES)))
+    n_cases = 0; entries = []
+    for fi, (family, count) in enumerate(LARGE_PLAN[tier]):
+        for j in range(count):
+            # every family starts with "later axes shrink more", then "a middle axis shrinks most"; the other profiles rotate with the seed
+            profile = 'later-more' if j == 0 else ('middle-most' if j == 1 and family[0] in '34' else LARGE_PROFILES[(off + j) % len(LARGE_PROFILES)])
+            folded = bool((fi + n_cases) % 2)
+            data_kind = ['dense', 'zero-slices', 'dense', 'counts'][(j + off + fi) % 4]
+            mask_kind = 'zero-slice' if data_kind == 'zero-slices' else ['none', 'single', 'corners', 'sparse', 'line'][(j + off + n_cases) % 5]
+            c = large_build(large_recipe(rng, tier, family, profile, folded, mask_kind, data_kind))
+            n_cases += 1; entries.append(int(np.prod(c['shape'])))
+            chk.stat('large:%s' % family); chk.stat('large:profile:%s' % profile); chk.stat('large:folded:%s' % folded)
+            check_project_case(chk, ctx, c, do_model=False)
+            check_large_meta(chk, ctx, c)
+            if j % 3 == 0 and c['d'] >= 2:
+                c1 = dict(c); c1['axis'] = int(np.argmin(c['ns'])) if j else c['d'] - 1     # `_project_one_axis` itself on the large array
+                check_one_axis_case(chk, ctx, c1, do_model=False)
+    chk.stats['large_cases'] = n_cases
+    chk.stats['large_entries_min'] = min(entries); chk.stats['large_entries_max'] = max(entries)
+    chk.stats['large_cases_over_1e5_entries'] = sum(1 for e in entries if e > 1e5)
+    # the other consumers of the weights at the upper end of the range: LowPass F = 0 operator, data-dictionary builds
+    LP = _lowpass(chk)
+    if LP is not None:
+        for it in range(3 if tier == 'quick' else 12):
+            n = int(rng.integers(120, 201)) if it else 200
+            m = [n - 1, n // 2, int(rng.integers(1, n + 1)), 1][it % 4]
+            check_lowpass_f0(chk, ctx, LP, n, m, [], rng, do_model=False)
+            chk.stat('large:lowpass')
+    l3_data_dict_history(chk, ctx, rng, 3 if tier == 'quick' else 9, big=True)
+
 # --------------------------------------------------------------------------- entry points
 def run(chk, ctx):
     tier = ctx['tier']
@@ -1113,13 +1338,22 @@ def run(chk, ctx):
                 'cache cold and warm, numpy and Python ints, upward rows (n < m); spectra: d in 1..4, per-axis sizes from {1, 2, max, random}, '
                 'targets from {same, n-1, 1, random}, masks from {corners, none, sparse, dense, single entry, full line}, folded (S.fold()) and unfolded, '
                 'planted spikes and negative entries; refusals: one/all axes upward, upward by exactly 1, too few/many sizes, equal sizes (accepted); '
+                'LARGE spectra on every run (L3 only; size-dependent code paths): 3-D with 44..60 chromosomes per axis, 4-D with 17..22, very unequal axes '
+                '(200 x 30 x 20, 80 x 16 x 10 x 8), 2-D/1-D up to 200 — 7e4..2.6e5 entries quick, up to 1.1e6 thorough — target profiles {later axes shrink more, '
+                'a middle axis most, earlier more, last axis only, all by one, down to 1..3, random}, pairwise different targets, folded and unfolded, '
+                'masks {none, single, corners, sparse, line}, checked entrywise against per-axis exact hypergeometric matrices (tensordot) + reachability masks, '
+                'plus two stages = one, axis-by-axis in random order, transposed axes, upward refusal, identity, `_project_one_axis`, LowPass F = 0 and '
+                'from_data_dict at n up to 200; '
                 'non-trivial = distinct (dimension, folded, mask kind, target kinds, size class) / (n, m) pair' % nmax)
     chk.unproved = [
         'round-off of gammaln/exp and of the float accumulation: agreement of the float code with the exact rational model is numerical (1e-9 of the array scale; observed <= 3e-13 up to n = 200)',
         'the numpy slice/broadcast bookkeeping of _project_one_axis in d dimensions is tied to the pointwise model (C08_axis_entry) by correspondence and by the statement-list check C08_wiring, not by translation',
         'fold/unfold of the model (Model/Spectrum.lean) are proved equal, entry by entry, to the programs regenerated from Spectrum.fold/unfold (tools/gen_ProjFold.py, using C09\'s translator; C08_fold_generated, C08_fold_wiring) and tied by correspondence; reverse_array (Spec.mirror) and the raw total (Spec.total) are tied by correspondence only',
         'the array theorems (C08_total_array, C08_compose_array, C08_axes_commute_array, C08_mask_array, C08_mirror_array, C08_fold_commute) assume no axis of length 0; mask spread of a *folded* source is stated through fold(project(unfold)) (C08_folded + C08_mask_array on the unfolded spectrum), not as a closed formula',
-        'dictionary semantics of the cache (hit returns the stored row) is exercised (cold/warm), its transparency theorem is C20']
+        'dictionary semantics of the cache (hit returns the stored row) is exercised (cold/warm), its transparency theorem is C20',
+        'the per-axis loop of project is translated (axisVisits / visitDoes / visitCall; C08_axis_pairing) for loop headers of the form enumerate(<list>) / zip(<list>, <list>); '
+        'a visiting order computed at run time (from the data, the array size, the amount of shrinkage) is outside the translated language (reported as a broken translation) '
+        'and is covered by the large-spectrum L3 oracle only: spectra above ~2.6e5 entries (quick) / ~1.1e6 (thorough) are never built']
     sweep_weights(chk, ctx, nmax, rng)
     sample_weights(chk, ctx, rng, 150 if tier == 'quick' else 1500, nmax + 1, 200)
     upward_rows(chk, ctx, rng, 40 if tier == 'quick' else 300)
@@ -1150,6 +1384,8 @@ def run(chk, ctx):
         c['axis'] = int(rng.integers(c['d']))
         check_one_axis_case(chk, ctx, c)
     cache_soundness(chk, ctx, 'Spectrum.project / _project_one_axis')
+    l3_large(chk, ctx, rng)
+    cache_soundness(chk, ctx, 'large spectra (project, _project_one_axis, LowPass F = 0, from_data_dict)', limit=40000, rng=rng)
     check_refusals(chk, ctx, rng, 36 if tier == 'quick' else 240)
     l3_compose_and_order(chk, ctx, rng, 100 if tier == 'quick' else 600)
     l3_neutral(chk, ctx, rng, 42 if tier == 'quick' else 280)
@@ -1203,6 +1439,14 @@ def replay(chk, ctx, data):
             check_lowpass_f0(chk, ctx, LP, int(inp['n']), int(inp['m']), done)
         else:
             run(chk, ctx)
+    elif kind == 'large':
+        c = large_build(inp)
+        if inp.get('axis') is not None:
+            c['axis'] = int(inp['axis']); check_one_axis_case(chk, ctx, c, do_model=False)
+        elif inp.get('what') == 'meta':
+            check_large_meta(chk, ctx, c)
+        else:
+            check_project_case(chk, ctx, c, do_model=False)
     elif kind == 'array':
         c = dict(inp); c['data'] = arr(inp['data']); c['mask'] = arr(inp['mask'], int).astype(bool)
         check_array_case(chk, ctx, c)
